@@ -216,11 +216,19 @@ def vc_prune(prog, with_thr=False, width_none=False):
     whiles, fors = find_loops()
     q = fv.qual
     loops = {}
-    if len(whiles) == 2 and len(fors) == 2:
-        loops[(q, whiles[0])] = {'inv': inv_ties, 'havoc': havoc_ties, 'variant': lambda it, env: S().n - env['cur_width']}
-        loops[(q, whiles[1])] = {'inv': inv_thr, 'variant': lambda it, env: env['cur_width']}
-        loops[(q, fors[0])] = mk_assign_loop('keep', spec_keep)
-        loops[(q, fors[1])] = mk_assign_loop('postpone', spec_postpone)
+    import ast as _ast
+    all_loops = sorted([n for n in _ast.walk(fv.node) if isinstance(n, (_ast.For, _ast.While))], key=lambda n: (n.lineno, n.col_offset))
+    # loops are recognised by what they mention, not by their position (harmless reordering must stay green)
+    tie = [i for i in whiles if 'len(' in _ast.unparse(all_loops[i].test)]
+    thrl = [i for i in whiles if 'prune_thr' in _ast.unparse(all_loops[i].test)]
+    keep = [i for i in fors if _ast.unparse(all_loops[i].iter).replace(' ', '').endswith('[:cur_width]')]
+    post = [i for i in fors if _ast.unparse(all_loops[i].iter).replace(' ', '').endswith('[cur_width:]')]
+    if len(tie) == 1 and len(thrl) == 1 and len(keep) == 1 and len(post) == 1:
+        loops[(q, tie[0])] = {'inv': inv_ties, 'havoc': havoc_ties, 'variant': lambda it, env: S().n - env['cur_width']}
+        loops[(q, thrl[0])] = {'inv': inv_thr, 'variant': lambda it, env: env['cur_width']}
+        loops[(q, keep[0])] = mk_assign_loop('keep', spec_keep)
+        loops[(q, post[0])] = mk_assign_loop('postpone', spec_postpone)
+        whiles = [tie[0], thrl[0]]
     st['loops_ok'] = len(loops) == 4
 
     # c0 (tie-extended width) must be captured between the loops: use the first while's exit via a wrapper of inv_thr
